@@ -179,6 +179,7 @@ def run(ch: Checker) -> None:
     ch.rule('C19.7', 'who may shut the listeners down: <x>.listeners.shutdown() is called from Proxy.shutdown only (closing the parent\'s copies earlier also unlinks the Unix socket path)', 1)
     ch.rule('C19.1', 'writer/reader agreement: with listeners created as evaluated from ListenerPool.setup (both unix-socket settings), Proxy.setup reads the primary '
                      'port from the listener created for flags.port and the additional ports from exactly the listeners created for flags.ports', 2)
+    ch.rule('C19.10', 'the port file (and the pid file) names this run only: it is opened in a truncating write mode -- open(path, "w..."), or os.open with O_TRUNC among its flags', 1)
     ch.rule('C19.2', 'the port file is written after flags.port / flags.ports were overwritten with the bound ports, primary first then the additional ports', 2)
     ch.rule('C19.3', 'every subsystem set up in Proxy.setup is shut down in Proxy.shutdown in the order acceptors, executors, event manager, listeners, port/pid file removal', 5)
     ch.rule('C19.3b', 'pool shutdown reaches every member: ListenerPool.shutdown calls shutdown() on every listener of the pool and empties it; no list is resized while iterated', 3)
@@ -360,6 +361,38 @@ def run(ch: Checker) -> None:
             order_ok = False
             detail = 'the primary port is not written on a TCP configuration'
     ch.check(order_ok and seen_any, 'C19.2', wpf, 'order', 'primary port first, then every additional port', detail or 'no path writes both primary and additional ports')
+
+    # ---------------- C19.10 the port file holds nothing but this run's ports: it is opened truncating
+    n10 = 0
+    bad10 = None
+    for fn10 in (wpf, prog.own_method('Proxy', '_write_pid_file')):
+        for p in fpaths(cfg_of(fn10, prog, exc_edges=False)):
+            sym10 = Sym(p)
+            for idx, n, lab in p.executed():
+                if n.kind not in ('stmt', 'with') or n.ast is None:
+                    continue
+                exprs10 = [it.context_expr for it in n.ast.items] if isinstance(n.ast, ast.With) else [n.ast]
+                for e10 in exprs10:
+                    for c in walk_no_nested(e10):
+                        if not isinstance(c, ast.Call):
+                            continue
+                        fnm = attr_chain(c.func) or ''
+                        if fnm in ('open', 'io.open', 'os.fdopen', 'os.open'):
+                            n10 += 1
+                        if fnm in ('open', 'io.open'):
+                            mode = c.args[1] if len(c.args) > 1 else next((k.value for k in c.keywords if k.arg == 'mode'), None)
+                            mv = ce.try_eval(fn10.module, mode) if mode is not None else 'r'
+                            if not (isinstance(mv, str) and 'w' in mv):
+                                bad10 = ('%s opens its file with mode %r: anything but a truncating "w" mode leaves what an earlier run wrote (a longer list of ports, a longer pid) behind the new content' % (fn10.qualname, mv), p.describe(8))
+                        elif fnm == 'os.open':
+                            fl = c.args[1] if len(c.args) > 1 else next((k.value for k in c.keywords if k.arg == 'flags'), None)
+                            names = {x.attr for x in ast.walk(sym10.value(fl, idx)) if isinstance(x, ast.Attribute)} if fl is not None else set()
+                            names = {x for x in names if isinstance(x, str)}
+                            if 'O_TRUNC' not in names:
+                                bad10 = ('%s opens its file with os.open(%s): without O_TRUNC the new ports are written over the start of what an earlier run left there and the rest of the old content stays -- '
+                                         'the port file then names ports nothing listens on' % (fn10.qualname, norm(fl)[:80] if fl is not None else ''), p.describe(8))
+    ch.check(bad10 is None and n10 >= 2, 'C19.10', wpf, 'port / pid file opened truncating', 'the files are opened in a truncating write mode (%d open call(s))' % n10, bad10[0] if bad10 else 'no open() found in _write_port_file / _write_pid_file',
+             witness=bad10[1] if bad10 else None)
 
     # ---------------- C19.3 setup/shutdown pairing and order
     p_shutdown = prog.own_method('Proxy', 'shutdown')
